@@ -58,6 +58,9 @@ def jobs(tier):
         out.append(("%s.nested3.P16384" % tag, "job_pair", dict(pair=pair, shape="nested3", P=16384, K=2, order="reversed")))
         out.append(("%s.mixedcase2.P16384" % tag, "job_pair", dict(pair=pair, shape="mixedcase2", P=16384, K=2, order="symbolic")))
         out.append(("%s.hidden2.P16384" % tag, "job_pair", dict(pair=pair, shape="hidden2", P=16384, K=1, order="reversed")))
+        out.append(("%s.dir1.P16384" % tag, "job_pair", dict(pair=pair, shape="dir1", P=16384, K=2, order="reversed")))
+        out.append(("%s.order2.P16384" % tag, "job_pair", dict(pair=pair, shape="order2", P=16384, K=1, order="reversed")))
+        out.append(("%s.flat2~prefix.P16384" % tag, "job_pair", dict(pair=pair, shape="flat2~prefix", P=16384, K=1, order="reversed")))
         if not q:
             out.append(("%s.order2.P32768" % tag, "job_pair", dict(pair=pair, shape="order2", P=32768, K=3, order="symbolic")))
             out.append(("%s.nested4.P16384" % tag, "job_pair", dict(pair=pair, shape="nested4", P=16384, K=2, order="reversed")))
